@@ -355,3 +355,27 @@ T('k18_render_section_helpers', ['C18'], (META, '''            cur = {'title': p
         except Exception:
             return []
 '''))
+T('k18_try_around_helper_call', ['C18'], (META, GMAIN, '''        for peri in self.peripherals:
+            try:
+                peri_ctx = self.call_peripheral(peri, kwargs)
+            except Exception as e:
+                peri_ctx = {'exc_content': repr(e)}
+            full_ctx.setdefault(peri.group_key, {}).update(peri_ctx)
+        return full_ctx
+
+    def call_peripheral(self, peri, injectables):
+        return inject(peri.get_context, injectables)
+'''))
+B('k18_helper_loops_inside_try', ['C18'], 'R18.c', (META, GMAIN, '''        full_ctx.update(self.peripheral_contexts(kwargs))
+        return full_ctx
+
+    def peripheral_contexts(self, injectables):
+        ret = {}
+        try:
+            for peri in self.peripherals:
+                ret.setdefault(peri.group_key, {}).update(inject(peri.get_context, injectables))
+        except Exception as e:
+            ret['exc_content'] = repr(e)
+        return ret
+'''))
+B('k18_handler_narrowed', ['C18'], 'R18.c', (META, "            except Exception as e:\n                peri_ctx = {'exc_content': repr(e)}", "            except (KeyError, TypeError) as e:\n                peri_ctx = {'exc_content': repr(e)}"))
